@@ -640,6 +640,14 @@ static void run_history(char **lines, long *lnos, long n)
         if (!strcmp(T[0], "history")) { printf("%ld history\n", lnos[li]); continue; }
         w_bytes = w_calls = w_creates = 0;
         HEclear();
+        if ((!strcmp(T[0], "seek") || !strcmp(T[0], "read")) && SLOT(aid, I(1), NA)) {
+            /* context of a positioning / reading call, printed before it runs (diagnostics for crash signatures only) */
+            int32 ln_ = -1, ps_ = -1; int16 sp_ = 0;
+            Hinquire(aid[I(1)], NULL, NULL, NULL, &ln_, NULL, &ps_, NULL, &sp_);
+            long tgt = !strcmp(T[0], "read") ? ps_ + I(2) : I(3) == 0 ? I(2) : I(3) == 1 ? ps_ + I(2) : ln_ + I(2);
+            printf("%ld pre special=%d %s\n", lnos[li], (int)sp_, tgt > ln_ ? "past-end" : "inside"); fflush(stdout);
+            HEclear();
+        }
         int rc = run_op(T[0]);
         long wb = w_bytes, wc = w_calls, wcr = w_creates;
         if (rc == -2) { printf("%ld unknown-op %s\n", lnos[li], T[0]); continue; }
